@@ -52,7 +52,7 @@ const OFF_CONTENT: usize = 64;
 zv_harness! {
     name: c19_zipoffset_trunc,
     prop: "C19",
-    tier: thorough,
+    tier: probe,
     unwind: 40,
     stubs: [
         alloc::fmt::format => crate::common::stubs::fmt_format,
@@ -90,7 +90,7 @@ zv_harness! {
 zv_harness! {
     name: c19_zipoffset_hdr_oversize,
     prop: "C19",
-    tier: thorough,
+    tier: probe,
     unwind: 40,
     stubs: [
         alloc::fmt::format => crate::common::stubs::fmt_format,
@@ -116,7 +116,7 @@ zv_harness! {
 zv_harness! {
     name: c19_zipoffset_torn_header,
     prop: "C19",
-    tier: thorough,
+    tier: probe,
     unwind: 40,
     stubs: [
         alloc::fmt::format => crate::common::stubs::fmt_format,
@@ -170,7 +170,7 @@ zv_harness! {
 zv_harness! {
     name: c19_huffman_trunc,
     prop: "C19",
-    tier: thorough,
+    tier: probe,
     unwind: 260,
     stubs: [
         alloc::fmt::format => crate::common::stubs::fmt_format,
@@ -401,7 +401,7 @@ fn publish_file(tag: &str, file: [u8; FILE_LEN]) -> std::path::PathBuf {
 zv_harness! {
     name: c19_mmapvec_reopen_as_written,
     prop: "C19",
-    tier: thorough,
+    tier: probe,
     unwind: 24,
     stubs: [
         alloc::fmt::format => crate::common::stubs::fmt_format,
